@@ -178,11 +178,14 @@ def stream_records(jp, env=None, rounds: int = 12):
     e = env or jp
     lines = ['{"items": [{"v": 1}, {"v": 5}, {"v": 9}], "note": "no threshold"}',
              '{"items": [{"v": 1}, {"v": 5}, {"v": 9}], "threshold": 3}',
-             '{"items": [{"v": 1}, {"v": 5}, {"v": 9}], "threshold": 7}',
-             '{"items": [{"v": 7}, {"v": 5}, {"v": 9}], "thresholx": 0}']
+             '{"items": [{"v": 1}, {"v": 5}, {"v": 9}, {"v": 2}, {"v": 8}], "threshold": 7}',
+             '{"items": [{"v": 7}, {"v": 5}], "thresholx": 0}']
     for q, wrap in (("$.items[?@.v > $.threshold]", False), ("$[0].items[?@.v > $[0].threshold]", True),
                     ("$.items[?count($.threshold) == 1 && @.v > 1]", False), ("$..[?@.v >= $.threshold]", False),
-                    ("$.items[?!$.threshold]", False), ("$[0].items[?$..threshold]", True)):
+                    ("$.items[?!$.threshold]", False), ("$[0].items[?$..threshold]", True),
+                    # arrays of different lengths through one compiled query with negative indices / slices
+                    ("$.items[-1]", False), ("$.items[-2, 0].v", False), ("$.items[?@.v > $.items[-2].v]", False), ("$.items[-2:]", False),
+                    ("$..[-1]", False)):
         c = e.compile(q)
         for k in range(rounds):
             line = lines[(k * 7 + k // 3) % len(lines)]
